@@ -65,8 +65,8 @@ pub fn areas() -> Vec<&'static str> {
         "c17",
         "c18",
         "c19",
+        "c20",
     ]
-    vec!["c17", "c20"]
 }
 
 /// Decode a hex string.
